@@ -2,7 +2,9 @@
 
 Case = {"spec": <graphgen Spec>, "fmts": [format…] (optional, default all eight),
         "opts": {fmt: {serializer keyword: value}} (optional; gen_options: every keyword the serializers read),
-        "round2": {…} (optional; graphgen.gen_round2)}
+        "round2": {…} (optional; graphgen.gen_round2),
+        "io": {…} (optional; gen_io: destination / source kinds, format aliases and guessing, encoding, publicID, reader
+               keywords, source and target graph kinds, format order, one serializer object re-used for 3-4 calls)}
 
 Property oracle (on the implementation only, independent of Lean and of rdflib.compare):
     for every format F that can express the graph:
@@ -10,7 +12,7 @@ Property oracle (on the implementation only, independent of Lean and of rdflib.c
     (hext: both sides first mapped through the RDF 1.1 identification simple literal = xsd:string),
     and every serialisation returns (per-format watchdog; the core watchdog backs it up).
 Violation tags:  rt-<fmt> (graph differs), ser-<fmt> (serializer raised), parse-<fmt> (rdflib cannot read its own
-output), hang-<fmt> (no return within FMT_TIMEOUT_S), timeout (core watchdog); rt2-/ser2-/parse2-/hang2-<fmt> for the
+output), hang-<fmt> (no return within FMT_TIMEOUT_S of CPU time, wall-clock backstop x10), timeout (core watchdog); rt2-/ser2-/parse2-/hang2-<fmt> for the
 second round of a two-round case ("round2": the same Graph object is serialised again after one of the prefixes the
 first round generated or used has been re-bound to another namespace and a triple in that namespace was added).
 
@@ -36,6 +38,8 @@ from __future__ import annotations
 import hashlib
 import json
 import logging
+import os as _os
+import re as _re_mod
 import signal
 import time
 import warnings
@@ -65,7 +69,9 @@ RULE = ("random RDF graphs from harness/graphgen.py (IRIs over 7 namespaces, bla
         "nodes, proper and malformed rdf:List structures, literals from a hostile character pool, 45 datatypes with valid "
         "and invalid lexical forms, language tags) x options (base incl. IRIs under the base with tricky remainders, bound/unbound "
         "prefixes, every serializer keyword: spacious, canon, xml_base, max_depth, auto_compact, context, use_native_types, "
-        "use_rdf_type, sort_keys, indent, separators, ensure_ascii; 15% two-round cases with a prefix re-bound) x 8 formats; non-trivial = "
+        "use_rdf_type, sort_keys, indent, separators, ensure_ascii; 15% two-round cases with a prefix re-bound; 30%/50% of cases "
+        "with the I/O surface varied: destination and source kinds, format aliases and suffix guessing, encodings, publicID, reader "
+        "keywords, graphs on other stores / Dataset views, shuffled format order, one serializer object called 3-4 times) x 8 formats; non-trivial = "
         "the graph is non-empty and at least 6 formats were actually round-tripped; distinct = distinct (graph, options)")
 ASSUMPTIONS = [
     "literals are built through rdflib's default constructor (rdflib.NORMALIZE_LITERALS = True): lexical normalisation of "
@@ -77,6 +83,11 @@ ASSUMPTIONS = [
     "JSON-LD with the base option: `base` is the document's own IRI (JSON-LD API); the output holds document-relative ids "
     "and no @base (pinned by the suite's fromRdf/compact tests), so it is parsed with publicID=base; all other formats are "
     "parsed without a base",
+    "encoding=: a document requested in a non-UTF-8 encoding travels to the reader as bytes (whether the bytes really are in "
+    "that codec is the serializers' encoding contract, not the round trip); the JSON-LD reader is told the encoding; pretty-xml "
+    "with latin-1/ascii only for graphs whose characters the codec holds",
+    "target graphs on a context-unaware store only for nt, turtle, longturtle, xml, pretty-xml (the hext, JSON-LD and N3 readers "
+    "refuse such a store explicitly); format guessing only where rdflib documents it (paths, locations, file=)",
 ]
 TRUSTED = ["harness/c03.py, harness/graphgen.py generators; harness/isoutil.py isomorphism oracle",
            "harness/c03tables.py probes the writers' per-character behaviour into lean/RV/C03/Tables.lean",
@@ -88,24 +99,40 @@ class _FmtTimeout(Exception):
     pass
 
 
+WALL_BACKSTOP_FACTOR = 10.0
+
+
 def _with_timeout(fn, seconds):
-    """Run fn() under a nested SIGALRM timer; restores the enclosing (core) watchdog afterwards."""
-    old_handler = signal.getsignal(signal.SIGALRM)
-    remaining, _ = signal.getitimer(signal.ITIMER_REAL)
-    t0 = time.time()
+    """Run fn() under a nested watchdog that counts CPU time (ITIMER_VIRTUAL / SIGVTALRM: a loop that never ends burns
+    CPU, and the verdict does not depend on how loaded the machine is), with a wall-clock backstop of
+    `seconds * WALL_BACKSTOP_FACTOR` (blocking waits burn no CPU).  Both limits scale with VERIF_TIMEOUT_SCALE.
+    The enclosing core watchdog (ITIMER_PROF / SIGPROF for CPU, ITIMER_REAL / SIGALRM as its wall backstop) keeps
+    running untouched, except that ITIMER_REAL / SIGALRM is borrowed for the nested backstop when that one would fire
+    first; handler, remaining time and repeat interval are restored afterwards."""
+    scale = float(_os.environ.get("VERIF_TIMEOUT_SCALE", "1"))
+    cpu, wall = seconds * scale, seconds * scale * WALL_BACKSTOP_FACTOR
 
     def h(_s, _f):
         raise _FmtTimeout()
 
-    signal.signal(signal.SIGALRM, h)
-    signal.setitimer(signal.ITIMER_REAL, seconds)
+    old_vt = signal.signal(signal.SIGVTALRM, h)
+    outer_left, outer_every = signal.getitimer(signal.ITIMER_REAL)
+    borrow = outer_left <= 0 or wall < outer_left
+    t0 = time.monotonic()
+    if borrow:
+        old_alrm = signal.signal(signal.SIGALRM, h)
+        signal.setitimer(signal.ITIMER_REAL, wall)
+    signal.setitimer(signal.ITIMER_VIRTUAL, cpu)
     try:
         return fn()
     finally:
-        signal.setitimer(signal.ITIMER_REAL, 0)
-        signal.signal(signal.SIGALRM, old_handler)
-        if remaining > 0:
-            signal.setitimer(signal.ITIMER_REAL, max(0.05, remaining - (time.time() - t0)))
+        signal.setitimer(signal.ITIMER_VIRTUAL, 0)
+        signal.signal(signal.SIGVTALRM, old_vt)
+        if borrow:
+            signal.setitimer(signal.ITIMER_REAL, 0)
+            signal.signal(signal.SIGALRM, old_alrm)
+            if outer_left > 0:
+                signal.setitimer(signal.ITIMER_REAL, max(0.05, outer_left - (time.monotonic() - t0)), outer_every)
 
 
 def _hext_norm(ts):
@@ -130,31 +157,217 @@ def _describe_diff(a, b):
             + ("" if lost or added else " (blank-node structure differs)"))
 
 
-def roundtrip(g, fmt, base, orig=None, opts=None):
-    """-> (status, detail, text)   status in ok | rt | ser | parse | hang;  `opts` = extra serializer keywords"""
+# ------------------------------------------------------------------ I/O surface (round f: surface audit)
+# Every value class of Graph.serialize(destination, format, base, encoding, **args) and of
+# Graph.parse(source, publicID, format, location, file, data, **args) that asks for the SAME graph back.
+
+SER_ALIASES = {"nt": ["ntriples", "application/n-triples", "nt11"], "turtle": ["ttl", "text/turtle"], "n3": ["text/n3"],
+               "xml": ["application/rdf+xml"], "json-ld": ["application/ld+json"]}
+PARSE_ALIASES = {"nt": ["ntriples", "application/n-triples", "nt11"], "turtle": ["ttl", "text/turtle"],
+                 "longturtle": ["ttl", "text/turtle"], "n3": ["text/n3"], "xml": ["application/rdf+xml"],
+                 "pretty-xml": ["application/rdf+xml"], "json-ld": ["application/ld+json"]}
+SUFFIXES = {"nt": [".nt"], "turtle": [".ttl"], "longturtle": [".ttl"], "n3": [".n3"], "xml": [".rdf", ".xml", ".owl"],
+            "pretty-xml": [".rdf", ".xml"], "json-ld": [".jsonld", ".json", ".json-ld"], "hext": [".hext"]}
+DEST_KINDS = ["path", "purepath", "fileobj", "bytesio", "fileurl"]                    # + "none" (the default)
+SRC_KINDS = ["data_bytes", "data_str", "bytesio", "stringio", "file_bin", "file_text", "path", "purepath", "location",
+             "inputsource", "pydict"]                                                  # + "data" (the default)
+ENCODINGS = ["utf-8", "utf-16", "latin-1", "ascii"]                                   # + None (the default)
+GRAPH_KINDS = ["simple", "named", "ctor_base", "shared_nm"]                           # + "memory" (the default)
+TARGET_KINDS = ["simple", "named"]                                                    # + "memory" (the default)
+OTHER_DOC = "http://other.example/dir/doc"
+ENCODINGS_FOR = {}   # per-format restriction of the encoding axis (triage: see design.d/C03.md, surface audit)
+
+
+# The audited surface (design.d/C03.md, "Surface audit"): every parameter inspect.signature shows on the entry points the
+# property quantifies over.  `_surface_probe` re-enumerates them on every run; a parameter that is not listed here is
+# counted in the evidence (stats surface_params_unlisted) so that the audit is redone when the surface grows.
+SURFACE_AUDITED = {
+    "Graph.serialize": ["destination", "format", "base", "encoding", "args"],
+    "Graph.parse": ["source", "publicID", "format", "location", "file", "data", "args"],
+    "Graph.__init__": ["store", "identifier", "namespace_manager", "base", "bind_namespaces"],
+    "NTSerializer.serialize": ["stream", "base", "encoding", "kwargs"],
+    "NT11Serializer.serialize": ["stream", "base", "encoding", "kwargs"],
+    "TurtleSerializer.serialize": ["stream", "base", "encoding", "spacious", "kwargs"],
+    "LongTurtleSerializer.serialize": ["stream", "base", "encoding", "spacious", "kwargs"],
+    "N3Serializer.serialize": ["stream", "base", "encoding", "spacious", "kwargs"],
+    "XMLSerializer.serialize": ["stream", "base", "encoding", "kwargs"],
+    "PrettyXMLSerializer.serialize": ["stream", "base", "encoding", "kwargs"],
+    "JsonLDSerializer.serialize": ["stream", "base", "encoding", "kwargs"],
+    "HextuplesSerializer.serialize": ["stream", "base", "encoding", "kwargs"],
+    "NTParser.parse": ["source", "sink", "kwargs"],
+    "TurtleParser.parse": ["source", "graph", "encoding", "turtle"],
+    "N3Parser.parse": ["source", "graph", "encoding"],
+    "RDFXMLParser.parse": ["source", "sink", "args"],
+    "JsonLDParser.parse": ["source", "sink", "version", "skolemize", "encoding", "base", "context", "generalized_rdf",
+                           "extract_all_scripts", "kwargs"],
+    "HextuplesParser.parse": ["source", "graph", "skolemize", "kwargs"],
+}
+
+
+def _surface_probe(stats):
+    import inspect
+    from rdflib import plugin
+    from rdflib.parser import Parser
+    from rdflib.serializer import Serializer
+    found = {}
+    for name, f in (("Graph.serialize", Graph.serialize), ("Graph.parse", Graph.parse), ("Graph.__init__", Graph.__init__)):
+        found[name] = [q for q in inspect.signature(f).parameters if q != "self"]
+    names = set(FORMATS) | {a for v in SER_ALIASES.values() for a in v} | {a for v in PARSE_ALIASES.values() for a in v}
+    for kind, meth in ((Serializer, "serialize"), (Parser, "parse")):
+        for nm in sorted(names):
+            try:
+                cls = plugin.get(nm, kind)
+            except Exception:
+                continue
+            found.setdefault(f"{cls.__name__}.{meth}", [q for q in inspect.signature(getattr(cls, meth)).parameters if q != "self"])
+    stats["surface_entry_points"] = len(found)
+    stats["surface_params"] = sum(len(v) for v in found.values())
+    stats["surface_params_unlisted"] = sum(1 for k, v in found.items() for q in v if q not in SURFACE_AUDITED.get(k, []))
+
+
+def _target(kind):
+    """the graph parsed INTO: fresh Memory graph | SimpleMemory graph | named graph of a Dataset that holds other data"""
+    if kind == "simple":
+        return Graph(store="SimpleMemory")
+    if kind == "named":
+        ds = rdflib.Dataset()
+        ds.graph(URIRef("urn:x-other")).add((URIRef("urn:x-noise"), URIRef(gg.RDF + "value"), Literal("noise")))
+        return ds.graph(URIRef("urn:x-target"))
+    return Graph()
+
+
+def _serialize_io(g, fmt, kw, io, tmp):
+    """g.serialize through the destination kind of `io`; -> the document as handed over (str | bytes)"""
+    import io as _io
+    import os
+    import pathlib
+    fname = SER_ALIASES[fmt][io["alias"] % len(SER_ALIASES[fmt])] if io.get("alias") is not None and fmt in SER_ALIASES else fmt
+    dest = io.get("dest", "none")
+    if dest == "none":
+        return g.serialize(format=fname, **kw)
+    if dest == "bytesio":
+        buf = _io.BytesIO()
+        g.serialize(destination=buf, format=fname, **kw)
+        return buf.getvalue()
+    path = os.path.join(tmp, "out" + SUFFIXES[fmt][io.get("suffix", 0) % len(SUFFIXES[fmt])])
+    if dest == "path":
+        g.serialize(destination=path, format=fname, **kw)
+    elif dest == "purepath":
+        g.serialize(destination=pathlib.PurePath(path), format=fname, **kw)
+    elif dest == "fileurl":
+        g.serialize(destination="file://" + path, format=fname, **kw)
+    else:
+        with open(path, "wb") as f:
+            g.serialize(destination=f, format=fname, **kw)
+    with open(path, "rb") as f:
+        return f.read()
+
+
+def _parse_io(doc, fmt, pkw, io, tmp):
+    """Graph.parse through the source kind of `io`; -> the parsed graph"""
+    import io as _io
+    import os
+    import pathlib
+    from rdflib.parser import StringInputSource
+    enc = io.get("enc") or "utf-8"
+    h = _target(io.get("tkind"))
+    pfmt = PARSE_AS.get(fmt, fmt)
+    if io.get("palias") is not None and fmt in PARSE_ALIASES:
+        pfmt = PARSE_ALIASES[fmt][io["palias"] % len(PARSE_ALIASES[fmt])]
+    src = io.get("src", "data")
+    as_bytes = doc if isinstance(doc, bytes) else doc.encode("utf-8")
+    as_str = doc if isinstance(doc, str) else (doc.decode("utf-8") if enc == "utf-8" else None)
+    if src == "pydict" and fmt != "json-ld":
+        src = "data"
+    if isinstance(doc, bytes) and enc != "utf-8":
+        # Bytes in a requested non-UTF-8 encoding travel as bytes.  (Which codec the bytes really are in is each
+        # serializer's `encoding` contract, not a round-trip question: NT / hext warn and write UTF-8, the Turtle
+        # family and XMLSerializer write UTF-8 silently, pretty-xml and JSON-LD honour the argument.)
+        src = {"data_str": "data_bytes", "stringio": "bytesio", "file_text": "file_bin", "pydict": "data_bytes"}.get(src, src)
+    if src in ("file_bin", "file_text", "path", "purepath", "location"):
+        path = os.path.join(tmp, "in" + SUFFIXES[fmt][io.get("suffix", 0) % len(SUFFIXES[fmt])])
+        with open(path, "wb") as f:
+            f.write(as_bytes)
+        if io.get("guess") and fmt != "hext" and src != "file_text":
+            # format guessed from the file suffix (documented for locations, paths and file=; a file object handed
+            # over as `source` has no name-based guess and falls back to Turtle)
+            pfmt = None
+    if src == "data":
+        return h.parse(data=doc, format=pfmt, **pkw)
+    if src == "data_bytes":
+        return h.parse(data=as_bytes, format=pfmt, **pkw)
+    if src == "data_str":
+        return h.parse(data=as_str, format=pfmt, **pkw)
+    if src == "pydict":
+        tree = json.loads(as_str)  # the signature admits a dict; a document that is a top-level array travels as text
+        return h.parse(data=tree if isinstance(tree, dict) else as_str, format=pfmt, **pkw)
+    if src == "bytesio":
+        return h.parse(source=_io.BytesIO(as_bytes), format=pfmt, **pkw)
+    if src == "stringio":
+        return h.parse(source=_io.StringIO(as_str), format=pfmt, **pkw)
+    if src == "inputsource":
+        return h.parse(source=StringInputSource(doc), format=pfmt, **pkw)
+    if src == "file_bin":
+        with open(path, "rb") as f:
+            return h.parse(file=f, format=pfmt, **pkw)
+    if src == "file_text":
+        with open(path, "r", encoding="utf-8", newline="") as f:
+            return h.parse(source=f, format=pfmt, **pkw)
+    if src == "path":
+        return h.parse(source=path, format=pfmt, **pkw)
+    if src == "purepath":
+        return h.parse(source=pathlib.PurePath(path), format=pfmt, **pkw)
+    if src == "location":
+        return h.parse(location=path, format=pfmt, **pkw)
+    raise ValueError(src)
+
+
+def _io_note(io):
+    return f"[io {json.dumps(io, sort_keys=True)}] " if io else ""
+
+
+def roundtrip(g, fmt, base, orig=None, opts=None, io=None):
+    """-> (status, detail, text)   status in ok | rt | ser | parse | hang;  `opts` = extra serializer keywords;
+    `io` = how the document travels: {"dest","src","alias","palias","suffix","guess","enc","public","pkw","tkind"}"""
+    import shutil
+    import tempfile
     orig = set(g) if orig is None else orig
+    io = io or {}
     kw = dict(opts or {})
     if "separators" in kw:
         kw["separators"] = tuple(kw["separators"])
-    if base is not None:
+    if base is not None and not io.get("ctor_base"):
         kw["base"] = base
+    if io.get("enc"):
+        kw["encoding"] = io["enc"]
+    tmp = tempfile.mkdtemp(prefix="c03-") if io.get("dest", "none") not in ("none", "bytesio") or io.get("src") in (
+        "file_bin", "file_text", "path", "purepath", "location") else None
     try:
-        text = _with_timeout(lambda: g.serialize(format=fmt, **kw), FMT_TIMEOUT_S)
-    except _FmtTimeout:
-        return "hang", f"serialize(format={fmt!r}) did not return within {FMT_TIMEOUT_S}s on a finite graph", None
-    except RecursionError as e:
-        return "ser", _exc(e), None
-    except Exception as e:
-        return "ser", _exc(e), None
-    pkw = {}
-    if base is not None and fmt == "json-ld":
-        pkw["publicID"] = base  # JSON-LD output does not embed the base it was compacted against
-    try:
-        h = _with_timeout(lambda: Graph().parse(data=text, format=PARSE_AS.get(fmt, fmt), **pkw), FMT_TIMEOUT_S)
-    except _FmtTimeout:
-        return "hang", f"parse of own {fmt} output did not return within {FMT_TIMEOUT_S}s", text
-    except Exception as e:
-        return "parse", _exc(e), text
+        try:
+            text = _with_timeout(lambda: _serialize_io(g, fmt, kw, io, tmp), FMT_TIMEOUT_S)
+        except _FmtTimeout:
+            return "hang", f"serialize(format={fmt!r}) did not return within {FMT_TIMEOUT_S}s of CPU time on a finite graph", None
+        except RecursionError as e:
+            return "ser", _io_note(io) + _exc(e), None
+        except Exception as e:
+            return "ser", _io_note(io) + _exc(e), None
+        pkw = dict(io.get("pkw") or {})
+        if base is not None and fmt == "json-ld":
+            # JSON-LD output does not embed the base it was compacted against
+            pkw["base" if io.get("jsonld_base_kw") else "publicID"] = base
+        elif io.get("public"):
+            pkw["publicID"] = OTHER_DOC   # every other output is self-contained: the document IRI must not matter
+        if fmt == "json-ld" and io.get("enc") not in (None, "utf-8") and isinstance(text, bytes):
+            pkw["encoding"] = io["enc"]   # JSON has no in-band encoding declaration: the reader is told
+        try:
+            h = _with_timeout(lambda: _parse_io(text, fmt, pkw, io, tmp), FMT_TIMEOUT_S)
+        except _FmtTimeout:
+            return "hang", f"parse of own {fmt} output did not return within {FMT_TIMEOUT_S}s of CPU time", text
+        except Exception as e:
+            return "parse", _io_note(io) + _exc(e), text
+    finally:
+        if tmp:
+            shutil.rmtree(tmp, ignore_errors=True)
     a, b = orig, set(h)
     if fmt == "hext":
         a, b = _hext_norm(a), _hext_norm(b)
@@ -164,7 +377,7 @@ def roundtrip(g, fmt, base, orig=None, opts=None):
         same = len(a) == len(b)  # search budget exhausted on a pathological symmetric graph: not decided, not a violation
     if same:
         return "ok", "", text
-    return "rt", _describe_diff(a, b), text
+    return "rt", _io_note(io) + _describe_diff(a, b), text
 
 
 # ------------------------------------------------------------------ term-level probes (model tie)
@@ -291,6 +504,116 @@ def labelled_bnodes(text):
     return out
 
 
+_CHOICE_WELL = {gg.FIRST: 0, gg.REST: 1, gg.NIL: 2, gg.TYPE: 3, gg.RDFS + "Class": 4}
+_DIRECTIVE = _re_mod.compile(r"\s*(?:@prefix|@base|PREFIX|BASE)\s[^\n]*\n")
+
+
+def _encode_choice(g):
+    """The rdflib graph `g` for the model's `choice` line: blank nodes numbered in rdflib's order on BNodes, IRIs
+    i0..i4 = rdf:first, rdf:rest, rdf:nil, rdf:type, rdfs:Class and the others from 5 in order of appearance, with ORD
+    (place of every IRI number in rdflib's order on URIRefs).  -> (ord word, triple words, label -> number) or None
+    if the graph has a predicate that is not an IRI (outside the model's graphs)."""
+    triples = list(g)
+    if any(not isinstance(p_, URIRef) for _s, p_, _o in triples):
+        return None
+    bnodes = sorted({t for tr in triples for t in tr if isinstance(t, BNode)})
+    bmap = {str(b): i for i, b in enumerate(bnodes)}
+    iris = {URIRef(k): v for k, v in _CHOICE_WELL.items()}
+    lits = {}
+    toks = []
+    for tr in triples:
+        for t in tr:
+            if isinstance(t, BNode):
+                toks.append(f"b{bmap[str(t)]}")
+            elif isinstance(t, URIRef):
+                if t not in iris:
+                    iris[t] = len(iris)
+                toks.append(f"i{iris[t]}")
+            else:
+                k = (str(t), t.datatype, t.language)
+                if k not in lits:
+                    lits[k] = len(lits)
+                toks.append(f"l{lits[k]}")
+    place = {u: i for i, u in enumerate(sorted(iris))}
+    by_num = sorted(iris, key=lambda u: iris[u])
+    return ",".join(str(place[u]) for u in by_num), toks, bmap
+
+
+def top_statements(text, bmap):
+    """Independent mini-scanner: the subjects of the top-level statements of Turtle-family text, in the order written:
+    `a` for `[]`, `b<n>` for a labelled blank node, `i` for anything else (an IRI in any spelling).  A statement ends at
+    a `.` between white space outside brackets, strings and IRIs; the directives at the top are skipped."""
+    pos = 0
+    while True:
+        m = _DIRECTIVE.match(text, pos)
+        if not m:
+            break
+        pos = m.end()
+    out, i, n, depth, start = [], pos, len(text), 0, True
+    while i < n:
+        c = text[i]
+        if start:
+            if c.isspace():
+                i += 1
+                continue
+            if text.startswith("[]", i):
+                out.append("a")
+            elif text.startswith("_:", i):
+                j = i + 2
+                while j < n and (text[j].isalnum() or text[j] in "_-."):
+                    j += 1
+                lab = text[i + 2:j].rstrip(".")
+                out.append(f"b{bmap.get(lab, '?')}")
+            else:
+                out.append("i")
+            start = False
+        if c == "<":
+            j = text.find(">", i + 1)
+            i = n if j < 0 else j + 1
+        elif c == '"':
+            if text.startswith('"""', i):
+                i += 3
+                while i < n and not text.startswith('"""', i):
+                    i += 2 if text[i] == "\\" else 1
+                i += 3
+            else:
+                i += 1
+                while i < n and text[i] != '"':
+                    i += 2 if text[i] == "\\" else 1
+                i += 1
+        elif c in "[(":
+            depth += 1
+            i += 1
+        elif c in "])":
+            depth -= 1
+            i += 1
+        elif c == "." and depth == 0 and i > 0 and text[i - 1].isspace() and (i + 1 == n or text[i + 1].isspace()):
+            start = True
+            i += 1
+        else:
+            i += 1
+    return out
+
+
+def _choice_lines(g, texts):
+    """the recursive writer's own choice, per graph and per format: which blank nodes got no label, and the top-level
+    statements in the order written — read off the text, compared with the model's `choice`"""
+    enc = _encode_choice(g)
+    if enc is None:
+        return []
+    ordw, toks, bmap = enc
+    line = f"choice {ordw} {' '.join(toks)}"
+    lines = []
+    for fmt in ("turtle", "longturtle", "n3"):
+        text = texts.get(fmt)
+        if text is None:
+            continue
+        hidden = sorted(bmap[b] for b in set(bmap) - labelled_bnodes(text))
+        hs = ",".join(f"b{b}" for b in hidden) or "-"
+        lines.append((line, f"H {hs} T {','.join(top_statements(text, bmap)) or '-'}"))
+    return lines
+
+
 def _struct_probe(spec):
     """-> [(model line, expected observation)]"""
     if not spec["triples"]:
@@ -327,14 +650,17 @@ def _struct_probe(spec):
             lines.append((f"vl b{bmap[h]} {gtxt}", exp))
     # which blank nodes the writers left unlabelled must satisfy Pre
     kw = {"base": spec["base"]} if spec.get("base") else {}
+    texts = {}
     for fmt in ("turtle", "longturtle", "n3"):
         try:
             text = _with_timeout(lambda: g.serialize(format=fmt, **kw), FMT_TIMEOUT_S)
         except Exception:
             continue
+        texts[fmt] = text
         hidden = sorted(set(bmap) - labelled_bnodes(text), key=lambda b: bmap[b])
         hs = ",".join(f"b{bmap[b]}" for b in hidden) or "-"
         lines.append((f"pre {hs} {gtxt}", "ok"))
+    lines += _choice_lines(g, texts)
     return lines
 
 
@@ -365,6 +691,54 @@ def _ntline_probe(spec):
         lines.append((f"ntparse {cps(line)}", exp, None))
         lines.append(("ntrow " + " ".join(_nt_term(x) for x in tr), exp, "ntrow"))
     return lines
+
+
+NTDOC_MAX_TRIPLES = 14
+
+
+def _ntdoc_probe(spec):
+    """The whole N-Triples document rdflib writes for the graph, read by the model's document reader (`readDoc`: the line
+    grammar per line, blank-node labels through the per-document table); the observation is whether the graph the model
+    read is isomorphic to the graph rdflib's own reader builds from the same text, and its size."""
+    trs = spec["triples"]
+    if not trs or len(trs) > NTDOC_MAX_TRIPLES:
+        return []
+    if any(x[0] == "l" and (x[3] == "" or (len(x) > 4 and x[4] == "raw")) for tr in trs for x in tr):
+        return []
+    try:
+        g = gg.build(spec)
+        text = g.serialize(format="nt")
+        n = len(Graph().parse(data=text, format="nt"))
+    except Exception:
+        return []
+    return [(f"ntdoc {cps(text)}", f"iso {n}", "ntdoc")]
+
+
+def _ntdoc_read_back(out, line):
+    """model output `ok N S P O …` -> rdflib graph; compared (isomorphism) with rdflib's reading of the same document"""
+    try:
+        w = out.split(" ")
+        if w[0] != "ok":
+            return out
+        n, terms = int(w[1]), w[2:]
+        mg = Graph()
+        for k in range(n):
+            tr = []
+            for t in terms[3 * k:3 * k + 3]:
+                f = t.split(":")
+                if f[0] == "i":
+                    tr.append(URIRef(uncps(f[1])))
+                elif f[0] == "b":
+                    tr.append(BNode("m" + f[1]))
+                else:
+                    tr.append(Literal(uncps(f[1]), datatype=URIRef(uncps(f[2])) if f[2] != "*" else None,
+                                      lang=uncps(f[3]) if f[3] != "*" else None, normalize=False))
+            mg.add(tuple(tr))
+        text = uncps(line.split(" ", 1)[1])
+        rg = Graph().parse(data=text, format="nt")
+        return f"iso {len(mg)}" if isoutil.iso(mg, rg) else f"differ {len(mg)} {len(rg)}"
+    except Exception as e:  # noqa: BLE001
+        return "none " + _exc(e)
 
 
 def _ntrow_read_back(out):
@@ -505,43 +879,174 @@ def _read_back(text, fmt):
         return "none"
 
 
+def _build_graph(spec, kind, stats):
+    """the graph serialised FROM: Memory graph | SimpleMemory graph | named-graph view of a Dataset that holds other data |
+    Graph(base=…) instead of the base= keyword | graph handed a NamespaceManager that another graph owns"""
+    bind = spec.get("bind", "rdflib")
+    if kind == "ctor_base" and spec.get("base") is None:
+        kind = "memory"
+    stats[f"gkind_{kind}"] = 1
+    if kind == "simple":
+        return gg.build(spec, Graph(store="SimpleMemory", bind_namespaces=bind))
+    if kind == "named":
+        ds = rdflib.Dataset()
+        noise = (URIRef("urn:x-noise"), URIRef(gg.RDF + "value"), Literal("noise"))
+        ds.graph(URIRef("urn:x-other")).add(noise)
+        ds.add(noise)
+        return gg.build(spec, ds.graph(URIRef("urn:x-g")))
+    if kind == "ctor_base":
+        return gg.build(spec, Graph(base=spec["base"], bind_namespaces=bind))
+    if kind == "shared_nm":
+        from rdflib.namespace import NamespaceManager
+        owner = Graph(bind_namespaces=bind)
+        return gg.build(spec, Graph(namespace_manager=NamespaceManager(owner, bind_namespaces=bind)))
+    return gg.build(spec)
+
+
+def _reuse(g, spec, ru, stats):
+    """ONE serializer object (the plugin class instantiated once on the graph), serialize() called >= 3 times with base,
+    encoding and options varied between the calls, the graph growing before the last call: every output must round-trip."""
+    import io as _io
+    from rdflib import plugin
+    from rdflib.serializer import Serializer
+    fmt = ru["fmt"]
+    out = []
+    try:
+        ser = plugin.get(fmt, Serializer)(g)
+    except Exception as e:
+        return [f"ser-{fmt}: [reuse] cannot instantiate: {_exc(e)}"]
+    stats[f"reuse_{fmt}"] = 1
+    for k, call in enumerate(ru["calls"]):
+        if call.get("add"):
+            g.add(tuple(gg.term(x) for x in call["add"]))
+        want = set(g)
+        kw = dict(call.get("opts") or {})
+        if fmt == "pretty-xml" and call.get("enc") in ("latin-1", "ascii") and not _encodable(
+                {**spec, "triples": spec["triples"] + [c["add"] for c in ru["calls"] if c.get("add")]}, [kw, call.get("base")], call["enc"]):
+            call = {k: v for k, v in call.items() if k != "enc"}
+        if "separators" in kw:
+            kw["separators"] = tuple(kw["separators"])
+        note = f"[reuse call {k + 1} of one {type(ser).__name__}: {json.dumps(call, sort_keys=True)}] "
+        buf = _io.BytesIO()
+        try:
+            _with_timeout(lambda: ser.serialize(buf, base=call.get("base"), encoding=call.get("enc"), **kw), FMT_TIMEOUT_S)
+        except _FmtTimeout:
+            out.append(f"hang-{fmt}: {note}serialize did not return within {FMT_TIMEOUT_S}s of CPU time")
+            continue
+        except Exception as e:
+            out.append(f"ser-{fmt}: {note}{_exc(e)}")
+            continue
+        pkw = {"publicID": call["base"]} if fmt == "json-ld" and call.get("base") else {}
+        try:
+            h = _with_timeout(lambda: Graph().parse(data=buf.getvalue(), format=PARSE_AS.get(fmt, fmt), **pkw), FMT_TIMEOUT_S)
+        except _FmtTimeout:
+            out.append(f"hang-{fmt}: {note}parse of own output did not return within {FMT_TIMEOUT_S}s of CPU time")
+            continue
+        except Exception as e:
+            out.append(f"parse-{fmt}: {note}{_exc(e)}")
+            continue
+        a, b = want, set(h)
+        if fmt == "hext":
+            a, b = _hext_norm(a), _hext_norm(b)
+        try:
+            same = isoutil.iso(a, b)
+        except RuntimeError:
+            same = len(a) == len(b)
+        stats["reuse_calls_ok"] = stats.get("reuse_calls_ok", 0) + int(same)
+        if not same:
+            out.append(f"rt-{fmt}: {note}{_describe_diff(a, b)}")
+    return out
+
+
+def _encodable(spec, opts, enc):
+    try:
+        json.dumps([spec["triples"], spec.get("prefixes"), spec.get("base"), opts], ensure_ascii=False).encode(enc)
+        return True
+    except UnicodeEncodeError:
+        return False
+
+
+def _count_io(stats, fmt, io):
+    for k in ("dest", "src", "enc", "tkind"):
+        if io.get(k):
+            stats[f"io_{k}_{io[k]}"] = stats.get(f"io_{k}_{io[k]}", 0) + 1
+    for k in ("alias", "palias"):
+        if io.get(k) is not None and fmt in (SER_ALIASES if k == "alias" else PARSE_ALIASES):
+            stats[f"io_{k}"] = stats.get(f"io_{k}", 0) + 1
+    for k in ("guess", "public", "jsonld_base_kw"):
+        if io.get(k):
+            stats[f"io_{k}"] = stats.get(f"io_{k}", 0) + 1
+    for k in (io.get("pkw") or {}):
+        stats[f"io_pkw_{k}"] = stats.get(f"io_pkw_{k}", 0) + 1
+
+
+def _class_first(e):
+    """a blank-node statement written before an IRI statement: only rdfs:Class members get there"""
+    t = e.split(" T ")[1].split(",")
+    return any(x != "i" for x in t[:len(t) - t[::-1].index("i")]) if "i" in t else False
+
+
 def run_impl(case):
     spec = case["spec"]
     fmts = case.get("fmts") or FORMATS
+    cio = case.get("io") or {}
     stats = dict(gg.features(spec))
-    g = gg.build(spec)
+    if case.get("surface_probe"):
+        _surface_probe(stats)
+    g = _build_graph(spec, cio.get("gkind", "memory"), stats)
     orig = set(g)
     viol = []
     xml_ok, why = gg.xml_expressible(spec)
     done = 0
+    if cio.get("order"):      # the same Graph object serialised eight times in another order
+        fmts = sorted(fmts, key=lambda f: cio["order"].index(FORMATS.index(f)))
+        stats["io_order_shuffled"] = 1
     for fmt in fmts:
         if fmt in ("xml", "pretty-xml") and not xml_ok:
             stats["skip_xml_inexpressible"] = stats.get("skip_xml_inexpressible", 0) + 1
             continue
         fopts = (case.get("opts") or {}).get(fmt)
-        st, detail, _text = roundtrip(g, fmt, spec.get("base"), orig, fopts)
+        fio = dict((cio.get("fmt") or {}).get(fmt) or {})
+        if cio.get("gkind") == "ctor_base" and spec.get("base") is not None:
+            fio["ctor_base"] = True
+        if fmt in ("hext", "json-ld", "n3") and fio.get("tkind") == "simple":
+            del fio["tkind"]       # the HexTuples, JSON-LD and N3 readers (named graphs, formulae) refuse a context-unaware store
+        if fmt == "pretty-xml" and fio.get("enc") in ("latin-1", "ascii") and not _encodable(spec, fopts, fio["enc"]):
+            del fio["enc"]         # the requested encoding cannot hold the document's characters (names, CDATA, raw XML)
+            stats["skip_enc_unencodable"] = stats.get("skip_enc_unencodable", 0) + 1
+        st, detail, _text = roundtrip(g, fmt, spec.get("base"), orig, fopts, fio)
         stats[f"{st}_{fmt}"] = stats.get(f"{st}_{fmt}", 0) + 1
         for k in (fopts or {}):
             stats[f"opt_{fmt}_{k}"] = stats.get(f"opt_{fmt}_{k}", 0) + 1
+        _count_io(stats, fmt, fio)
         if st == "ok":
             done += 1
         else:
             viol.append(f"{st}-{fmt}: " + (f"[options {json.dumps(fopts, sort_keys=True)}] " if fopts else "") + detail)
+    if cio.get("reuse") and (xml_ok or cio["reuse"]["fmt"] not in ("xml", "pretty-xml")):
+        viol += _reuse(g, spec, cio["reuse"], stats)
+        orig = set(g)
     r2 = case.get("round2")
     if r2:
         viol += _round2(g, spec, r2, fmts, stats, case.get("opts") or {})
-    probe = _probe(spec) + _hext_probe(spec) + _ntline_probe(spec)
+    probe = _probe(spec) + _hext_probe(spec) + _ntline_probe(spec) + _ntdoc_probe(spec)
     sprobe = _struct_probe(spec) + _base_probe(spec)
     obs = [exp for _l, exp, _p in probe] + [exp for _l, exp in sprobe]
     stats["probe_base"] = sum(1 for l, _e in sprobe if l.startswith("strip"))
     stats["probe_base_rel"] = sum(1 for l, e in sprobe if l.startswith("strip") and e == "rel")
     stats["probe_hext"] = sum(1 for l, _e, _p in probe if l.startswith("hext"))
+    stats["probe_ntdoc"] = sum(1 for l, _e, _p in probe if l.startswith("ntdoc"))
+    stats["probe_ntdoc_bnodes"] = sum(1 for l, _e, _p in probe if l.startswith("ntdoc") and ",95,58," in l)
     stats["probe_ntline"] = sum(1 for l, _e, _p in probe if l.startswith("ntparse"))
     stats["probe_lines"] = len(probe)
     stats["probe_isValidList"] = sum(1 for l, _e in sprobe if l.startswith("vl "))
     stats["probe_isValidList_true"] = sum(1 for l, e in sprobe if l.startswith("vl ") and e == "true")
     stats["probe_pre"] = sum(1 for l, _e in sprobe if l.startswith("pre "))
     stats["probe_pre_hidden_nonempty"] = sum(1 for l, _e in sprobe if l.startswith("pre b"))
+    stats["probe_choice"] = sum(1 for l, _e in sprobe if l.startswith("choice "))
+    stats["probe_choice_hidden"] = sum(1 for l, e in sprobe if l.startswith("choice ") and not e.startswith("H - "))
+    stats["probe_choice_anon_top"] = sum(1 for l, e in sprobe if l.startswith("choice ") and ("a" in e.split(" T ")[1].split(",")))
+    stats["probe_choice_class_first"] = sum(1 for l, e in sprobe if l.startswith("choice ") and _class_first(e))
     stats["probe_shorthand_tokens"] = sum(1 for l, _e, _p in probe if l.startswith("relex "))
     key = hashlib.sha1(json.dumps([sorted(map(json.dumps, spec["triples"])), spec.get("prefixes"), spec.get("bind"),
                                    spec.get("base")], sort_keys=True).encode()).hexdigest()
@@ -599,7 +1104,88 @@ def gen_case(rng, tier, i):
         opts = gen_options(rng, case["spec"])
         if opts:
             case["opts"] = opts
+    if rng.random() < (0.3 if tier == "quick" else 0.5):
+        case["io"] = gen_io(rng, case["spec"], case.get("opts") or {})
+    if rng.random() < (0.06 if tier == "quick" else 0.12) and not case.get("round2"):
+        case["spec"] = gg.keywordise(rng, case["spec"])   # prefixes / blank-node labels spelled like keywords
     return case
+
+
+def gen_io(rng, spec, opts):
+    """How the documents travel and which objects carry them (the surface of Graph.serialize / Graph.parse /
+    Serializer.serialize):  {"gkind": source graph kind, "order": permutation of the formats,
+    "reuse": {"fmt", "calls": [{"base","enc","opts","add"} x 3..4]}, "fmt": {fmt: per-format io dict (see roundtrip)}}"""
+    def some(p):
+        return rng.random() < p
+
+    cio = {}
+    if some(0.4):
+        cio["gkind"] = rng.choice(GRAPH_KINDS)
+    if some(0.3):
+        order = list(range(len(FORMATS)))
+        rng.shuffle(order)
+        cio["order"] = order
+    per = {}
+    for fmt in FORMATS:
+        if not some(0.6):
+            continue
+        io = {}
+        if some(0.5):
+            io["dest"] = rng.choice(DEST_KINDS)
+        if some(0.6):
+            io["src"] = rng.choice(SRC_KINDS if fmt == "json-ld" else SRC_KINDS[:-1])
+        if some(0.25):
+            io["alias"] = rng.randrange(3)
+        if some(0.25):
+            io["palias"] = rng.randrange(3)
+        if some(0.3):
+            io["suffix"] = rng.randrange(3)
+        if some(0.4):
+            io["guess"] = True
+        if some(0.3):
+            io["enc"] = rng.choice(ENCODINGS_FOR.get(fmt, ENCODINGS))
+        if some(0.2):
+            io["public"] = True
+        if some(0.25):
+            io["tkind"] = rng.choice(TARGET_KINDS)
+        if fmt == "json-ld":
+            if some(0.3):
+                io["jsonld_base_kw"] = True
+            if some(0.3):
+                io["pkw"] = rng.choice([{"generalized_rdf": True}, {"version": 1.0}, {"version": 1.1}, {"extract_all_scripts": True}])
+        elif fmt in ("turtle", "longturtle", "n3") and io.get("enc") in (None, "utf-8") and some(0.2):
+            io["pkw"] = {"encoding": "utf-8"}
+        elif fmt in ("xml", "pretty-xml") and some(0.2):
+            io["pkw"] = {"preserve_bnode_ids": True}
+        elif fmt == "nt" and some(0.2):
+            io["pkw"] = {"bnode_context": {}}
+        if io:
+            per[fmt] = io
+    if per:
+        cio["fmt"] = per
+    if some(0.3):
+        fmt = rng.choice(FORMATS)
+        subj = next((t[0] for t in spec["triples"]), ["i", gg.NAMESPACES[0] + "s"])
+        pred = next((t[1] for t in spec["triples"]), ["i", gg.NAMESPACES[0] + "p"])
+        bases = [spec.get("base"), None, rng.choice(gg.BASES)]
+        rng.shuffle(bases)
+        calls = []
+        for k in range(rng.choice([3, 3, 4])):
+            call = {}
+            b = bases[k % 3]
+            if b is not None and (fmt not in ("xml", "pretty-xml") or "xml_base" not in (opts.get(fmt) or {})):
+                call["base"] = b
+            if some(0.3):
+                call["enc"] = rng.choice(["utf-8"] + [e for e in ENCODINGS_FOR.get(fmt, ENCODINGS) if fmt != "json-ld"])
+            if some(0.6):
+                o = gen_options(rng, {**spec, "base": call.get("base")}).get(fmt)
+                if o:
+                    call["opts"] = o
+            if k >= 2 and some(0.5):
+                call["add"] = [subj, pred, ["l", "added before call %d" % (k + 1), None, None]]
+            calls.append(call)
+        cio["reuse"] = {"fmt": fmt, "calls": calls}
+    return cio
 
 
 def gen_options(rng, spec):
@@ -622,8 +1208,9 @@ def gen_options(rng, spec):
         o["longturtle"] = lt
     for fmt in ("xml", "pretty-xml"):
         x = {}
-        if spec.get("base") is None and some(0.2):
-            x["xml_base"] = rng.choice(["http://ex.org/a/", "http://example.org/doc/x", "http://ex.org/q?x=1&y=2"])
+        if some(0.2):        # also next to a base= (round g: the two may name different IRIs, finding F42)
+            x["xml_base"] = rng.choice(["http://ex.org/a/", "http://example.org/doc/x", "http://ex.org/q?x=1&y=2"]
+                                       + ([spec["base"]] * 2 if spec.get("base") else []))
         if fmt == "pretty-xml" and some(0.45):
             x["max_depth"] = rng.choice([1, 1, 2, 5, 8, 50])
         if x:
@@ -662,16 +1249,19 @@ _CTX_PREFIXES = [["ex", gg.NAMESPACES[0]], ["a", gg.NAMESPACES[1]], ["b", gg.NAM
 
 
 def model_lines(case):
-    return ([l for l, _e, _p in _probe(case["spec"]) + _hext_probe(case["spec"]) + _ntline_probe(case["spec"])]
+    return ([l for l, _e, _p in _probe(case["spec"]) + _hext_probe(case["spec"]) + _ntline_probe(case["spec"])
+             + _ntdoc_probe(case["spec"])]
             + [l for l, _e in _struct_probe(case["spec"]) + _base_probe(case["spec"])])
 
 
 def select_model_obs(case, out):
     """The model's own encodings (`ntenc`, `tenc`) are handed to rdflib's readers; the observation is what they read."""
     res = []
-    probe = _probe(case["spec"]) + _hext_probe(case["spec"]) + _ntline_probe(case["spec"])
+    probe = _probe(case["spec"]) + _hext_probe(case["spec"]) + _ntline_probe(case["spec"]) + _ntdoc_probe(case["spec"])
     for (_l, _e, post), o in zip(probe, out):
-        if post == "hext" and o != "bad-op":
+        if post == "ntdoc" and o != "bad-op":
+            res.append(_ntdoc_read_back(o, _l))
+        elif post == "hext" and o != "bad-op":
             res.append(_hext_read_back(o))
         elif post == "ntrow" and o != "bad-op":
             res.append(_ntrow_read_back(o))
@@ -692,6 +1282,21 @@ def shrink(case):
             for k in kw:
                 if len(kw) > 1:
                     yield {**case, "opts": {**case["opts"], f: {x: y for x, y in kw.items() if x != k}}}
+    if case.get("io"):
+        cio = case["io"]
+        yield {k: v for k, v in case.items() if k != "io"}
+        for k in cio:
+            yield {**case, "io": {x: y for x, y in cio.items() if x != k}}
+        for f, d in (cio.get("fmt") or {}).items():
+            yield {**case, "io": {**cio, "fmt": {f: d}}}
+            for k in d:
+                yield {**case, "io": {**cio, "fmt": {**cio["fmt"], f: {x: y for x, y in d.items() if x != k}}}}
+        if cio.get("reuse"):
+            for j, call in enumerate(cio["reuse"]["calls"]):
+                for k in call:
+                    calls = [dict(c) for c in cio["reuse"]["calls"]]
+                    del calls[j][k]
+                    yield {**case, "io": {**cio, "reuse": {**cio["reuse"], "calls": calls}}}
     fm = case.get("fmts") or FORMATS
     if len(fm) > 1:
         for f in fm:
